@@ -8,7 +8,7 @@ the filter-vs-filter relation must be monotone w.r.t. the string relation (whene
 sup at index i, every topic level matched by sub at i is matched by sup at i). param-use: every
 parameter of match_level_impl influences the result. Parser/validator agreement and Display round
 trips are not decided."""
-import json, os
+import json, os, re
 from facts import *
 from disp import *
 from symex import SymEx, term_str_v, term_has
@@ -359,6 +359,402 @@ def match_tables(F, R):
     R.ob('C18.match-table', 'match_topic|end-of-topic: None|# => true, other => false', ok_tail, 'when the topic is exhausted the filter must be exhausted too or continue with `#` (parent level rule)')
 
 
+def _strip_refs(v):
+    while v and v[0] in ('ref', 'deref'):
+        v = v[1]
+    return v
+
+
+def _root_call(v):
+    """(callee name, projection list) of the call a place term is rooted in, or (None, None)"""
+    proj = []
+    while v:
+        if v[0] in ('ref', 'deref'):
+            v = v[1]
+        elif v[0] == 'field':
+            proj.append(v[2])
+            v = v[1]
+        elif v[0] == 'downcast':
+            proj.append(v[2])
+            v = v[1]
+        elif v[0] == 'call':
+            return v[1], list(reversed(proj))
+        else:
+            return None, None
+    return None, None
+
+
+def match_loop(F, R):
+    """One iteration of match_topic's loop as a table: (topic has a next level, filter's next level kind,
+    result m of MatchLevel::match_level(topic level, that filter level, index)) -> continue | true | false.
+    Expected (4.7): filter exhausted -> false; `#` -> m (and stop); any other level -> continue iff m."""
+    mt = F.one(r'^topic::match_topic$')
+    variants = level_variants(F)
+    vidx = {n: i for i, n in enumerate(variants)}
+    paths = [p for p in SymEx(mt, F, loop_visits=0).run() if p.end[0] in ('return', 'loop')]
+    R.ob('C18.match-table', 'match_topic|one-iteration paths', len(paths) >= 6, '%d paths through one iteration' % len(paths))
+
+    def is_enum_next(n):
+        return n is not None and re.search(r'Enumerate<.*Iterator>::next$', n) is not None
+
+    def is_slice_next(n):
+        return n is not None and re.search(r'slice::Iter<.*Iterator>::next$', n) is not None
+
+    def classify(t):
+        if t[0] == 'discr':
+            n, proj = _root_call(t[1])
+            if is_enum_next(n) and not proj:
+                return ('topic_next',)
+            if is_slice_next(n) and not proj:
+                return ('filt_next',)
+            if is_slice_next(n) and proj == ['Some', '0']:
+                return ('kind',)
+        if t[0] == 'call' and t[1].endswith('MatchLevel::match_level') and len(t[2]) == 3:
+            a0, a1, a2 = t[2]
+            n0, p0 = _root_call(a0)
+            n2, p2 = _root_call(a2)
+            ok_item = is_enum_next(n0) and p0 == ['Some', '0', '1']
+            ok_idx = is_enum_next(n2) and p2 == ['Some', '0', '0']
+            lv = _strip_refs(a1)
+            if lv[0] == 'agg' and lv[1] == LEVEL and not lv[3]:
+                which = lv[2]
+            else:
+                n1, p1 = _root_call(a1)
+                which = 'self' if is_slice_next(n1) and p1 == ['Some', '0'] else '?'
+            return ('m', which, ok_item, ok_idx)
+        return None
+
+    problems = []
+
+    def m_value(cl, env):
+        _, which, ok_item, ok_idx = cl
+        if not ok_item or not ok_idx:
+            problems.append('match_level is not given the current topic level and its index')
+            return None
+        if which == 'self' or which == env['kind']:
+            return env['m']
+        problems.append('filter level %s is compared through match_level(.., %s, ..)' % (env['kind'], which))
+        return None
+
+    def outcome(env):
+        res = set()
+        for p in paths:
+            ok = True
+            for t, c in p.conds:
+                cl = classify(t)
+                if cl is None:
+                    ok = None
+                    break
+                if cl[0] == 'topic_next':
+                    v = env['tn']
+                elif cl[0] == 'filt_next':
+                    v = 0 if env['kind'] is None else 1
+                elif cl[0] == 'kind':
+                    if env['kind'] is None:
+                        ok = False
+                        break
+                    v = vidx[env['kind']]
+                else:
+                    v = m_value(cl, env)
+                    if v is None:
+                        ok = None
+                        break
+                if (c[0] == 'eq' and v != c[1]) or (c[0] == 'ne' and v in c[1]):
+                    ok = False
+                    break
+            if ok is None:
+                res.add('unevaluable')
+            elif ok:
+                if p.end[0] == 'loop':
+                    res.add('continue')
+                elif p.ret and p.ret[0] == 'const':
+                    res.add(bool(p.ret[1]))
+                else:
+                    cl = classify(p.ret) if p.ret else None
+                    v = m_value(cl, env) if cl and cl[0] == 'm' else None
+                    res.add('unevaluable' if v is None else bool(v))
+        return res
+    n = 0
+    for tn in (0, 1):
+        for kind in [None] + variants:
+            for m in (0, 1):
+                env = {'tn': tn, 'kind': kind, 'm': m}
+                if tn == 0:
+                    want = kind in (None, 'MultiWildcard')
+                elif kind is None:
+                    want = False
+                elif kind == 'MultiWildcard':
+                    want = bool(m)
+                else:
+                    want = 'continue' if m else False
+                del problems[:]
+                got = outcome(env)
+                n += 1
+                R.ob('C18.match-table', 'match_topic|step(topic %s, filter %s, level-match=%d)' % ('has level' if tn else 'exhausted', kind or 'exhausted', m),
+                     got == {want}, 'one step of match_topic yields %s, MQTT 4.7 requires %s%s' % (sorted(map(str, got)), want, ('; ' + '; '.join(sorted(set(problems)))) if problems else ''), mt.loc(0))
+    R.floor('C18.match-table', 'match_topic step cases', n, 24)
+
+
+def parse_table(F, R):
+    """TryFrom<ByteString> for TopicFilter: the per-level classifier (the body under try_from that builds
+    TopicFilterLevel values) is extracted by path enumeration and evaluated for sample level texts and
+    positions: "+" -> SingleWildcard, "#" -> MultiWildcard, "" -> Blank, text containing a wildcard character ->
+    Err, "$.." at position 0 -> System, everything else (also "$.." later) -> Normal; the text stored in the
+    level is the level's own text. The result then passes TopicFilter::is_valid (false -> Err)."""
+    root = F.one(r'^<topic::TopicFilter as std::convert::TryFrom<ntex_bytes::ByteString>>::try_from$')
+    cands = [root] + F.find(r'^<topic::TopicFilter as std::convert::TryFrom<ntex_bytes::ByteString>>::try_from::\{closure#\d+\}$')
+    cls = None
+    for b in cands:
+        kinds = {s['rv']['variant'] for bi, j, s in b.assigns() if s['rv']['k'] == 'agg' and s['rv'].get('adt') == LEVEL}
+        if len(kinds) >= 3:
+            cls = b
+    if not R.ob('C18.parse-table', 'classifier-found', cls is not None, 'no body under TryFrom<ByteString>::try_from builds TopicFilterLevel values: anchor lost'):
+        return
+    paths = [p for p in SymEx(cls, F, loop_visits=0).run() if p.end[0] == 'return']
+
+    def unq(c):
+        if c[0] == 'constx' and isinstance(c[1], str) and len(c[1]) >= 2 and c[1][0] == '"':
+            return json.loads(c[1])
+        return None
+
+    class Unev(Exception):
+        pass
+
+    def ev(t, env):
+        k = t[0]
+        if k == 'const':
+            return t[1]
+        if k == 'call':
+            base = t[1]
+            mm = re.search(r'PartialEq.*::(eq|ne)$', base)
+            if mm and len(t[2]) == 2:
+                a0, a1 = _strip_refs(t[2][0]), _strip_refs(t[2][1])
+                lit = unq(a1) if unq(a1) is not None else unq(a0)
+                if lit is None:
+                    raise Unev(term_str_v(t))
+                return int((env['text'] == lit) == (mm.group(1) == 'eq'))
+            if base.endswith('<impl str>::contains'):
+                pat = t[2][1]
+                chars = []
+                if pat[0] == 'array':
+                    chars = [chr(x[1]) for x in pat[1] if x[0] == 'const']
+                elif pat[0] == 'const':
+                    chars = [chr(pat[1])]
+                elif unq(pat) is not None:
+                    return int(unq(pat) in env['text'])
+                else:
+                    raise Unev(term_str_v(t))
+                return int(any(c in env['text'] for c in chars))
+            if base.endswith('topic::is_system'):
+                return int(env['text'].startswith('$'))
+            if base.endswith('<impl str>::starts_with'):
+                pat = t[2][1]
+                if pat[0] == 'const':
+                    return int(env['text'].startswith(chr(pat[1])))
+                if unq(pat) is not None:
+                    return int(env['text'].startswith(unq(pat)))
+            if base.endswith('<impl str>::is_empty'):
+                return int(env['text'] == '')
+            raise Unev(term_str_v(t))
+        if k == 'bin':
+            a, b_ = t[2], t[3]
+            x = ev(a, env) if a[0] in ('const', 'bin', 'un', 'call') else env['idx']
+            y = ev(b_, env) if b_[0] in ('const', 'bin', 'un', 'call') else env['idx']
+            r = {'Eq': x == y, 'Ne': x != y, 'Lt': x < y, 'Le': x <= y, 'Gt': x > y, 'Ge': x >= y, 'BitAnd': x & y, 'BitOr': x | y}.get(t[1])
+            if r is None:
+                raise Unev(term_str_v(t))
+            return int(r)
+        if k == 'un' and t[1] == 'Not':
+            return int(not ev(t[2], env))
+        if k in ('field', 'arg', 'deref', 'ref'):
+            return env['idx']
+        raise Unev(term_str_v(t))
+
+    def classify(env):
+        out = set()
+        for p in paths:
+            ok = True
+            for t, c in p.conds:
+                v = ev(t, env)
+                if (c[0] == 'eq' and v != c[1]) or (c[0] == 'ne' and v in c[1]):
+                    ok = False
+                    break
+            if not ok:
+                continue
+            r = p.ret
+            if r and r[0] == 'agg' and r[2] == 'Err':
+                out.add('Err')
+            elif r and r[0] == 'agg' and r[2] == 'Ok' and r[3].get('0', ('?',))[0] == 'agg' and r[3]['0'][1] == LEVEL:
+                lv = r[3]['0']
+                own_text = True
+                if lv[3]:
+                    # the stored text must be derived from the level's own text (2nd closure parameter component)
+                    own_text = term_has(lv[3].get('0'), 'recover_bstr') or lv[3].get('0', ('?',))[0] in ('field', 'arg', 'call')
+                    own_text = own_text and freeze_has_level_text(lv[3].get('0'))
+                out.add(lv[2] + ('' if own_text else '(foreign text)'))
+            else:
+                out.add('?' + (term_str_v(r)[:60] if r else 'None'))
+        return out
+
+    def freeze_has_level_text(t):
+        # the text operand mentions the classifier's own parameter (arg2 / its .1 component) - not a constant
+        st = [t]
+        while st:
+            x = st.pop()
+            if isinstance(x, tuple):
+                if x and x[0] == 'arg' and x[1] == 2:
+                    return True
+                st.extend(x)
+        return False
+    samples = ['+', '#', '', 'a', 'ab', '$s', '$', 'a+', '+a', 'a#', '#a', '$+', '$#', '++', '##', '+#', ' ']
+    n = 0
+    for text in samples:
+        for idx in (0, 1, 2):
+            if text == '+':
+                want = 'SingleWildcard'
+            elif text == '#':
+                want = 'MultiWildcard'
+            elif text == '':
+                want = 'Blank'
+            elif '+' in text or '#' in text:
+                want = 'Err'
+            elif idx == 0 and text.startswith('$'):
+                want = 'System'
+            else:
+                want = 'Normal'
+            try:
+                got = classify({'text': text, 'idx': idx})
+            except Unev as e:
+                R.ob('C18.parse-table', 'classifier|evaluable', False, 'cannot interpret the classifier condition %s: unsupported idiom (anchor lost)' % e, cls.loc(0))
+                return
+            n += 1
+            R.ob('C18.parse-table', 'level(%r at %s)' % (text, 'index 0' if idx == 0 else 'index>0' if idx == 1 else 'index>1'), got == {want},
+                 'the parser classifies level text %r at position %d as %s, MQTT 4.7 / the string validator require %s' % (text, idx, sorted(got), want), cls.loc(0))
+    R.floor('C18.parse-table', 'classifier cases', n, 51)
+    # wiring of the whole conversion: empty input refused, levels are the '/'-separated pieces numbered from 0, structural validation last
+    calls = {bi: callee_name(t) or '' for bi, t in root.calls()}
+    split = [(bi, t) for bi, t in root.calls() if re.search(r'<impl str>::split$', callee_name(t) or '')]
+    sep_ok = False
+    for bi, t in split:
+        c = op_const(t['args'][1]) if len(t['args']) > 1 else None
+        if c and c.get('v') == ord('/'):
+            sep_ok = True
+    R.ob('C18.parse-table', 'try_from|levels-are-split-at-/', sep_ok, 'TryFrom<ByteString> does not split the filter at the level separator `/`', root.loc(0))
+    subs = [root] + [b for b in cands if b is not root]
+    isv = [(b, bi) for b in subs for bi, t in b.calls_to(r'^topic::TopicFilter::is_valid$')]
+    ok_v = False
+    for b, bi in isv:
+        for p in SymEx(b, F, loop_visits=0).run():
+            for t, c in p.conds:
+                if t[0] == 'call' and t[1].endswith('TopicFilter::is_valid') and c == ('eq', 0) and p.ret and p.ret[0] == 'agg' and p.ret[2] == 'Err':
+                    ok_v = True
+    R.ob('C18.parse-table', 'try_from|structural-validation-decides', ok_v, 'a parsed filter that fails TopicFilter::is_valid is not turned into an error', root.loc(0))
+    empties = [bi for bi, t in root.calls() if re.search(r'::is_empty$', callee_name(t) or '')]
+    ok_e = False
+    for p in SymEx(root, F, loop_visits=0).run():
+        for t, c in p.conds:
+            if t[0] == 'call' and t[1].endswith('is_empty') and c[0] == 'ne' and p.ret and p.ret[0] == 'agg' and p.ret[2] == 'Err' and not any('split' in n for n, a, bi in p.calls):
+                ok_e = True
+    R.ob('C18.parse-table', 'try_from|empty-filter-refused', ok_e, 'the empty string is not refused before parsing (4.7.3: at least one character)', root.loc(0))
+    enum_before_map = False
+    order = [callee_name(t) or '' for bi, t in sorted(root.calls())]
+    names = [o.split('::')[-1] for o in order]
+    if 'enumerate' in names and 'map' in names and 'split' in names:
+        enum_before_map = names.index('split') < names.index('enumerate') < names.index('map')
+        # nothing that renumbers or drops pieces between split and enumerate
+        between = names[names.index('split') + 1:names.index('enumerate')]
+        enum_before_map = enum_before_map and not [x for x in between if x in ('skip', 'filter', 'rev', 'skip_while', 'step_by', 'take', 'filter_map')]
+    R.ob('C18.parse-table', 'try_from|index-counts-levels-from-0', enum_before_map, 'the position handed to the classifier is not the index of the `/`-separated level (enumerate directly over split)', root.loc(0))
+
+
+def display_table(F, R):
+    """Display for TopicFilterLevel as a table (variant -> what is written) - the inverse of the parser's
+    classifier: Normal/System write their own text once, Blank nothing, the wildcards their character;
+    Display for TopicFilter writes levels through that impl and no separator other than `/`."""
+    b = F.one(r'^<topic::TopicFilterLevel as std::fmt::Display>::fmt$')
+    variants = level_variants(F)
+    paths = [p for p in SymEx(b, F, loop_visits=0).run() if p.end[0] == 'return']
+    want = {'Normal': 'own-text', 'System': 'own-text', 'Blank': '', 'SingleWildcard': '+', 'MultiWildcard': '#'}
+    seen = {}
+    for p in paths:
+        k = None
+        for t, c in p.conds:
+            if t[0] == 'discr' and c[0] == 'eq':
+                k = variants[c[1]] if c[1] < len(variants) else None
+        if k is None:
+            continue
+        out = []
+        for n, args, bi in p.calls:
+            base = n.split('::')[-1]
+            if base == 'write_char' and len(args) == 2 and args[1][0] == 'const':
+                out.append(chr(args[1][1]))
+            elif base == 'write_str' and len(args) == 2:
+                a = args[1]
+                own = term_has(a, k) and not term_has(a, 'constx')
+                out.append('own-text' if own else 'other-text')
+            elif base in ('write_fmt', 'pad', 'write'):
+                out.append('formatted')
+        seen.setdefault(k, set()).add(''.join(out) if all(len(x) == 1 for x in out) else '|'.join(out))
+    for k in variants:
+        R.ob('C18.display', 'level|%s' % k, seen.get(k) == {want.get(k)},
+             'Display writes %s for a %s level, the parser needs %r to read the same level back' % (sorted(seen.get(k, [])), k, want.get(k)), b.loc(0))
+    R.counts['C18.display:level variants'] = len(seen)
+    tb = F.one(r'^<topic::TopicFilter as std::fmt::Display>::fmt$')
+    chars = set()
+    for bi, t in tb.calls():
+        n = callee_name(t) or ''
+        if n.endswith('write_char'):
+            c = op_const(t['args'][1])
+            if c and 'v' in c:
+                chars.add(chr(c['v']))
+        if n.endswith('write_str'):
+            chars.add('<str>')
+    lv = list(tb.calls_to(r"^<topic::TopicFilterLevel as std::fmt::Display>::fmt$"))
+    # the decision to write a separator depends on the position only (iterator state, index, length of the level
+    # list), never on text (what was written so far, or the level's content): an empty level writes nothing, so a
+    # content test cannot tell "first level" from "after an empty level"
+    fam = [tb] + [x for x in F.find(r'^<topic::TopicFilter as std::fmt::Display>::fmt::\{closure') ]
+    sep_sites = 0
+    for fb in fam:
+        org = Origin(fb)
+        for bi, t in fb.calls():
+            n = callee_name(t) or ''
+            if not re.search(r'::(write_char|push|write_str|push_str)$', n) or len(t['args']) < 2:
+                continue
+            c = op_const(t['args'][1])
+            is_sep = bool(c) and (c.get('v') == 47 or c.get('s') in ('"/"',) or c.get('def') in ('"/"',))
+            if not is_sep:
+                continue
+            sep_sites += 1
+            if re.search(r'::(push|push_str)$', n):
+                chars.add('/')
+            bad = set()
+            for sb in range(len(fb.blocks)):
+                tt = fb.blocks[sb]['term']
+                if tt['k'] != 'switch' or sb not in fb.live or not fb.dominates(sb, bi):
+                    continue
+                succs = {x for _, x in tt['targets']} | {tt['otherwise']}
+                reach = [x for x in succs if bi in fb.reachable(x, avoid=[sb]) or x == bi]
+                if len(reach) == len(succs):
+                    continue
+                for lf in org.of_operand(tt['discr']):
+                    if lf[0] == 'call' and re.search(r'(string::String|<impl str>|ByteString|fmt::Formatter)', lf[1]) and re.search(r'::(is_empty|len|ends_with|starts_with|width|capacity|chars|as_bytes|last|bytes)$', lf[1]):
+                        bad.add(lf[1])
+            R.ob('C18.display', 'filter|separator-decided-by-position|%s' % n.split('::')[-1], not bad,
+                 'whether `/` is written depends on text (%s): an empty level writes nothing, so leading or repeated separators are lost and parse(display(f)) != f' % sorted(bad), fb.loc(bi))
+    R.ob('C18.display', 'filter|separator-written', sep_sites >= 1, 'no write of the level separator `/` found in Display for TopicFilter', tb.loc(0))
+    chars.discard('<str>') if sep_sites and chars - {'<str>'} == {'/'} else None
+    R.ob('C18.display', 'filter|separator-is-/', chars == {'/'}, 'Display for TopicFilter writes %s between/around levels, the parser splits at `/` only' % sorted(chars), tb.loc(0))
+    for fb in fam:
+        for bi, t in fb.calls():
+            c = op_const(t['func']) or {}
+            if (callee_name(t) or '').endswith('new_display') and any('TopicFilterLevel' in a for a in c.get('args', [])):
+                lv.append((bi, t))
+            if re.search(r'ToString>?::to_string$', callee_name(t) or '') and any('TopicFilterLevel' in a for a in c.get('args', [])):
+                lv.append((bi, t))
+    R.ob('C18.display', 'filter|levels-through-level-impl', len(lv) >= 1, 'Display for TopicFilter does not write the levels through Display for TopicFilterLevel', tb.loc(0))
+
+
 def param_use(F, R):
     b = F.one(r'^topic::match_level_impl$')
     for argn, name in ((1, 'subset_level'), (2, 'superset_level'), (3, 'index')):
@@ -427,4 +823,7 @@ def run(F, R):
     level_validity(F, R)
     valid_dfa(F, R)
     match_tables(F, R)
+    match_loop(F, R)
+    parse_table(F, R)
+    display_table(F, R)
     param_use(F, R)
